@@ -227,7 +227,7 @@ def handle13 (args : List String) : Option String :=
       | "stream" => some .stream
       | _ => none
     pure ("ok " ++ match resolveParent entry psName with
-      | .none => "none" | .predefined => "predefined" | .embedded => "embedded" | .error => "error")
+      | .none => "none" | .predefined => "predefined" | .embedded => "embedded")
   | ["next", t, inc] => do
     let t ← textOfWire t
     let inc ← inc.toNat?
